@@ -291,6 +291,13 @@ func (x *btCtx) checkWrapper(relT, relB string) {
 					guard := cOld != nil && hasFact(facts, func(f Fact) bool {
 						return f.Op == token.LSS && f.X.Kind == KInit && cCell != nil && f.X.Args[0].Key() == cCell.Key()
 					})
+					// the count may also be the length of the gathered slice itself: `len(ns) < n` before append(ns, v)
+					lenOfNs := func(x *Sym) bool {
+						return nsCell != nil && x.Kind == KOp && x.Name == "len" && len(x.Args) == 1 && x.Args[0].Kind == KInit && x.Args[0].Args[0].Key() == nsCell.Key()
+					}
+					if appended == 1 && inc == 0 && hasFact(facts, func(f Fact) bool { return f.Op == token.LSS && lenOfNs(f.X) }) {
+						inc, guard = 1, true
+					}
 					if appended != 1 || inc != 1 || !guard {
 						okc = false
 						c.violated("C03.limit", "iterWalk callback", cb.Pos(), fmt.Sprintf("an item is appended without `c < n` on the current count, or the count does not grow by exactly one per appended item (appends=%d increments=%d guarded=%v): more than n items are returned", appended, inc, guard), c.witness(t, len(t.Events)-1)...)
@@ -302,7 +309,9 @@ func (x *btCtx) checkWrapper(relT, relB string) {
 				_ = cCell
 				// returning false (stop) only when c >= n
 				if b, isB := t.Ret[0].boolConst(); isB && !b {
-					stop := hasFact(facts, func(f Fact) bool { return f.Op == token.GEQ && f.X.Kind == KInit })
+					stop := hasFact(facts, func(f Fact) bool {
+						return f.Op == token.GEQ && (f.X.Kind == KInit || (f.X.Kind == KOp && f.X.Name == "len" && len(f.X.Args) == 1 && f.X.Args[0].Kind == KInit))
+					})
 					if !stop {
 						okc = false
 						c.violated("C03.limit", "iterWalk callback", cb.Pos(), "the walk is stopped although the limit is not reached", c.witness(t, len(t.Events)-1)...)
@@ -373,6 +382,10 @@ func (x *btCtx) checkWrapper(relT, relB string) {
 				}
 			} else {
 				good := ins == 1 && r.Kind == KBin && r.Op == token.NEQ && r.Args[0].Key() == del.Res.Key() && r.Args[1].isNilConst()
+				// or the constant the path has established for `old != nil`
+				if rb, isB := r.boolConst(); isB && ins == 1 && ((found && rb) || (missing && !rb)) {
+					good = true
+				}
 				if !good {
 					ok = false
 					c.violated("C03.update", name, fn.Pos(), "UpdateOrInsert does not always insert the new item exactly once and report whether the old one existed", c.witness(t, len(t.Events)-1)...)
@@ -1121,7 +1134,8 @@ func (x *btCtx) checkShapeAndLength(rel string) {
 						seenRem = true
 						continue
 					}
-					if seenRem && e.Kind == EvBranch && e.Cond.Kind == KBin && e.Cond.Args[0].Kind == KOp && e.Cond.Args[0].Name == "len" && strings.Contains(e.Cond.Args[0].Key(), ".items") && strings.Contains(e.Cond.Args[0].Key(), ".root") {
+					if seenRem && e.Kind == EvBranch && e.Cond.Kind == KBin && e.Cond.Args[0].Kind == KOp && e.Cond.Args[0].Name == "len" && strings.Contains(e.Cond.Args[0].Key(), ".items") && (strings.Contains(e.Cond.Args[0].Key(), ".root") || (len(rem.Args) > 0 && strings.Contains(e.Cond.Args[0].Key(), rem.Args[0].Key()))) {
+						// the node examined is the tree's root: read again from the root field, or the node remove was called on
 						collapseTested = true
 					}
 				}
